@@ -23,7 +23,7 @@ type skipPred struct {
 }
 
 func drawPredicate(t *rapid.T, m *streamModel) skipPred {
-	switch gen.Uniform(t, 8, "pred") {
+	switch gen.Uniform(t, 9, "pred") {
 	case 0:
 		set := map[uint16]bool{}
 		for _, pid := range m.pids {
@@ -49,6 +49,10 @@ func drawPredicate(t *rapid.T, m *streamModel) skipPred {
 		return skipPred{"skip all", func(int, *astits.Packet) bool { return true }}
 	case 6:
 		return skipPred{"skip none", func(int, *astits.Packet) bool { return false }}
+	case 7:
+		return skipPred{"adaptation field reduced to its length byte", func(_ int, p *astits.Packet) bool {
+			return p.AdaptationField != nil && p.AdaptationField.IsOneByteStuffing
+		}}
 	default:
 		return skipPred{"no payload or adaptation field stuffing > 50", func(_ int, p *astits.Packet) bool {
 			return !p.Header.HasPayload || (p.AdaptationField != nil && p.AdaptationField.StuffingLength > 50)
@@ -81,7 +85,7 @@ func packetsAndData(b []byte, opts ...func(*astits.Demuxer)) (pk []string, data 
 }
 
 func TestC19Skipper(t *testing.T) {
-	rec := obs.NewRecorder("C19", "skipper", "rapid: well-formed streams (with null/CAT/adaptation-only packets) x predicates {PID set, continuity counter parity, PUSI, adaptation field flags, random per-packet decisions, skip all, skip none, no-payload/stuffing}; oracle: NextPacket and NextData sequences (and errors) with the skipper equal those of the stream from which the selected packets were deleted; the predicate is called once per packet in stream order with header and adaptation field equal to the reference decode of that packet (for both NextPacket and NextData); no packet for which it returned true is ever returned; non-trivial = predicate selects some but not all packets; distinct by stream bytes + predicate decisions")
+	rec := obs.NewRecorder("C19", "skipper", "rapid: well-formed streams (with null/CAT/adaptation-only packets) x predicates {PID set, continuity counter parity, PUSI, adaptation field flags, random per-packet decisions, skip all, skip none, no-payload/stuffing, one-byte adaptation field}; oracle: NextPacket and NextData sequences (and errors) with the skipper equal those of the stream from which the selected packets were deleted; the predicate is called once per packet in stream order with header and adaptation field equal to the reference decode of that packet (for both NextPacket and NextData); no packet for which it returned true is ever returned; non-trivial = predicate selects some but not all packets; distinct by stream bytes + predicate decisions")
 	defer rec.Flush()
 	rapid.Check(t, func(t *rapid.T) {
 		o := defaultStreamOpts()
@@ -109,7 +113,7 @@ func TestC19Skipper(t *testing.T) {
 			skipper := astits.DemuxerOptPacketSkipper(func(p *astits.Packet) bool {
 				c := *p
 				c.Payload = nil
-				log = append(log, obs.Canon(&c, "IsOneByteStuffing"))
+				log = append(log, obs.Canon(&c))
 				s := pred.f(idx, p)
 				idx++
 				return s
@@ -203,7 +207,7 @@ func TestC19Skipper(t *testing.T) {
 			for i, sp := range m.packets {
 				w := conv.PacketStruct(sp.p, true)
 				w.Payload = nil
-				if ws := obs.Canon(w, "IsOneByteStuffing"); log[i] != ws {
+				if ws := obs.Canon(w); log[i] != ws {
 					t.Fatalf("%s with skipper %q: call %d saw a packet that is not packet %d of the stream:\n%s", api, pred.name, i, i, obs.Diff(log[i], ws))
 				}
 				if decisions[i] && api == "NextPacket" {
